@@ -18,6 +18,37 @@ from ..rules.common import explore, where, short, self_attr
 from ..rules import role as R
 
 
+def _inputs_unchanged(ck, cmp_fn):
+    """C19.4: the command-line tool compares what the two files hold: the lists handed to AlignmentComparer.compare are the
+    reader's results for the first and the second file, as read - nothing is filtered, collapsed or re-keyed in between
+    (every (query, reference) key of a file must be classified)"""
+    from ..rules.common import path_terms
+    from ..rules.common import self_attr
+    ck.clause("C19.4", "the two alignment sets compared are the two files' alignments as read (first file first)")
+    p = ck.ctx.p
+    progs = [c for c in p.classes.values() if c.name == "Program" and c.module.name == "src.compare_alignments"]
+    if len(progs) != 1 or "run" not in progs[0].methods:
+        raise AnalysisError("compare_alignments.Program.run not found")
+    run_fn = progs[0].methods["run"]
+    n = 0
+    seen = set()
+    for pa in explore(ck, run_fn):
+        for t, facts, node, kind in path_terms(pa):
+            for x in T.subterms(t):
+                if x[0] == "app" and x[1] == cmp_fn.qualname and x not in seen:
+                    seen.add(x)
+                    n += 1
+                    a = dict(x[3])
+                    w = where(run_fn, node)
+                    files = T.mk_attr(T.mk_attr(V(run_fn.self_name), "args"), "alignmentFiles")
+                    for k, (pname, arg) in enumerate(list(a.items())[:2]):
+                        ok = arg[0] == "app" and arg[1].endswith(".read") and list(dict(arg[3]).values()) == [T.mk_idx(files, C(k))]
+                        ck.judge(ok, "C19.4", short(run_fn) + f":set{k + 1}", w,
+                                 f"alignment set {k + 1} is what the reader returns for alignment file {k + 1}, unchanged",
+                                 found=T.show(arg)[:200], required=f"benchmarkReader.read(self.args.alignmentFiles[{k}])")
+    ck.floor("C19.4 compare calls in compare_alignments.Program.run", n, 1)
+
+
 def run(ck):
     ctx = ck.ctx
     p = ctx.p
@@ -26,6 +57,7 @@ def run(ck):
     ck.clause("C19.3", "row comparison is symmetric in its two arguments; coverage formula")
     cmp_fn = p.find_method("AlignmentComparer", "compare")
     a1, a2 = [V(pp.name) for pp in cmp_fn.call_params()]
+    _inputs_unchanged(ck, cmp_fn)
     rets_all = [pa for pa in explore(ck, cmp_fn) if pa.outcome == "return"]
     rets = [pa for pa in rets_all if pa.value[0] == "app" and pa.value[1].endswith("AlignmentComparison.create")]
     for pa in rets_all:
